@@ -5,7 +5,7 @@ EXTENDS Integers, Sequences, TLC, Json, TLCExt
 TraceLog == ndJsonDeserialize("hist.ndjson")
 VARIABLES l, bad
 TInit == l = 1 /\ bad = <<>>
-Guard(e) == e.a # "Site" \/ (e.nevents = 1 /\ e.got = e.want /\ e.ncaller = 1)
+Guard(e) == e.a # "Site" \/ (e.nevents = 1 /\ e.got = e.want /\ e.ncaller = e.nwant /\ e.allsame)    \* nwant: caller hooks on the logger (2 for "ctxtwice"); allsame: every caller field names the site
 TNext == /\ l <= Len(TraceLog) /\ l' = l + 1
          /\ LET e == TraceLog[l] IN IF Guard(e) THEN UNCHANGED bad ELSE bad' = Append(bad, <<l, "">>)
 TSpec == TInit /\ [][TNext]_<<l, bad>>
